@@ -18,6 +18,9 @@ def showTxs (l : List Tx) : String :=
   `insert <sender> <nonce> <ctxprio> <id> <url,…|->` → `ok <count>`
   `remove <sender> <nonce>`                       → `ok <count>` | `notfound <count>`
   `select`                                        → `sel <sender:nonce:id,…|->` | `panic <…>`
+  `seln <k>`                                      → `part <sender:nonce:id,…|-> <end|more|panic>`
+                                                    (`Select`, then at most `k` × `Tx()`/`Next()`)
+  `ctxprio`                                       → `<priority>`            (`TxFeeSkipper`)
   `count`                                         → `<count>` -/
 def step (st : State) (args : List String) : State × String :=
   match args with
@@ -26,11 +29,11 @@ def step (st : State) (args : List String) : State × String :=
     match parseInt? c with
     | some c => (st, toString (txPriority (splitList urls) c))
     | none => (st, "bad-op")
+  | ["ctxprio"] => (st, toString appCtxPriority)
   | ["insert", s, n, c, id, urls] =>
     match parseNat? n, parseInt? c, parseNat? id with
     | some n, some c, some id =>
-      let p := txPriority (splitList urls) c
-      let mp := st.pool.insert s n p id
+      let mp := st.pool.step (TxOp.insert s n (splitList urls) c id).toOp
       (⟨mp⟩, s!"ok {mp.count}")
     | _, _, _ => (st, "bad-op")
   | ["remove", s, n] =>
@@ -42,6 +45,13 @@ def step (st : State) (args : List String) : State × String :=
   | ["select"] =>
     let r := st.pool.select
     (⟨r.1⟩, (if r.2.2 then "panic " else "sel ") ++ showTxs r.2.1)
+  | ["seln", k] =>
+    match parseNat? k with
+    | some k =>
+      let r := st.pool.selectN k
+      let status := if r.2.2.isPanic then "panic" else if r.2.2.isDone then "end" else "more"
+      (⟨r.1⟩, s!"part {showTxs r.2.1} {status}")
+    | none => (st, "bad-op")
   | ["count"] => (st, toString st.pool.count)
   | _ => (st, "bad-op")
 
